@@ -191,6 +191,14 @@ def convertText (cfg : ECfg) (esc : Esc) (dflt : Option Str) (v : Val) : R (Opti
     | .marker => pure dflt
     | _ => pure (convertVal q)
 
+/-- the conversion `assign_text` appends to one `${…}` part: with `literal_false = False` (boolean attributes) a false
+value becomes `None` before any conversion -/
+def convPart (cfg : ECfg) (esc : Esc) (dflt : Option Str) (lf : Bool) (v : Val) : R (Option Str) := do
+  if lf then convertText cfg esc dflt v
+  else
+    let b ← Val.truthy cfg.tab v
+    if b then convertText cfg esc dflt v else pure none
+
 /-- `simple_translate(msgid, mapping=…, default=…)` for str msgids: `${name}` / `$name` interpolation -/
 def simpleTranslate (rx : Rx) (msgid : Str) (mapping : Option (List (Str × Str))) (dflt : Option Str) : Str :=
   let d := dflt.getD msgid
@@ -244,7 +252,7 @@ def evalT (cfg : ECfg) (al : List (Str × Val)) (env : Env) : Nat → TExpr → 
       | .none => pure (.markup (lit "None"))
       | _ => do let s ← xLiftR (Val.strOf cfg.tab v); pure (.markup s)
     | .str parts => do
-      let r ← evalParts cfg al env f parts esc dflt
+      let r ← evalParts cfg al env f parts esc dflt true
       match r with
       | some s => pure (.str s)
       | none => pure .none
@@ -263,30 +271,30 @@ def evalAlts (cfg : ECfg) (al : List (Str × Val)) (env : Env) : Nat → List Py
       else if isSubclass cfg ex.cls cfg.talesExc then evalAlts cfg al env f rest esc dflt x'
       else .raised ex x'
 /-- the Interpolator's result: `none` = Python `None` (single part evaluating to nothing) -/
-def evalParts (cfg : ECfg) (al : List (Str × Val)) (env : Env) : Nat → List IPart → Esc → Option Str → XM (Option Str)
-  | 0, _, _, _ => xUnsupported "expression nesting too deep"
-  | f+1, parts, esc, dflt =>
+def evalParts (cfg : ECfg) (al : List (Str × Val)) (env : Env) : Nat → List IPart → Esc → Option Str → Bool → XM (Option Str)
+  | 0, _, _, _, _ => xUnsupported "expression nesting too deep"
+  | f+1, parts, esc, dflt, lf =>
     match parts with
     | [.lit s] => pure (some s)
     | [.expr e tok _] => do
       xSetToken tok
       let v ← evalT cfg al env f e esc dflt
-      xLiftR (convertText cfg esc dflt v)
+      xLiftR (convPart cfg esc dflt lf v)
     | _ => do
-      let rs ← partsText cfg al env f parts esc dflt
+      let rs ← partsText cfg al env f parts esc dflt lf
       pure (some rs)
-def partsText (cfg : ECfg) (al : List (Str × Val)) (env : Env) : Nat → List IPart → Esc → Option Str → XM Str
-  | 0, _, _, _ => xUnsupported "expression nesting too deep"
-  | _, [], _, _ => pure []
-  | f+1, p :: rest, esc, dflt => do
+def partsText (cfg : ECfg) (al : List (Str × Val)) (env : Env) : Nat → List IPart → Esc → Option Str → Bool → XM Str
+  | 0, _, _, _, _ => xUnsupported "expression nesting too deep"
+  | _, [], _, _, _ => pure []
+  | f+1, p :: rest, esc, dflt, lf => do
     let a ← match p with
       | .lit s => pure s
       | .expr e tok _ => do
         xSetToken tok
         let v ← evalT cfg al env f e esc dflt
-        let t ← xLiftR (convertText cfg esc dflt v)
+        let t ← xLiftR (convPart cfg esc dflt lf v)
         pure (t.getD [])
-    let b ← partsText cfg al env f rest esc dflt
+    let b ← partsText cfg al env f rest esc dflt lf
     pure (a ++ b)
 end
 
@@ -380,7 +388,7 @@ def evalEN (cfg : ECfg) (al : List (Str × Val)) (env : Env) : Nat → EN → XM
       | .error (.crash cls) => xUnsupported ("compile crash " ++ cls)
       | .ok parts => do
         xSetToken tok
-        let r ← evalParts cfg al env 64 parts esc dflt
+        let r ← evalParts cfg al env 64 parts esc dflt literalFalse
         let v : Val := match r with | some s => .str s | none => .none
         -- emit_convert on the joined result is the identity on str / None
         if literalFalse then pure v else do
